@@ -14,6 +14,152 @@ type AssumeCase struct {
 	NbVars int     `json:"nbvars"`
 	Cnf    [][]int `json:"cnf"`
 	Rounds [][]int `json:"rounds"`
+	Large  bool    `json:"large,omitempty"` // beyond the exhaustive oracle: each answer validated (model evaluated; Unsat by a verified refutation of a fresh run)
+}
+
+// genAssumeLarge: rounds that need restarts or very long learned clauses. (a) a pigeonhole problem
+// guarded by a literal g (every clause carries -g): unsatisfiable under g after thousands of conflicts,
+// trivially satisfiable otherwise; (b) threshold 3-SAT over 90..130 variables with one or two assumed
+// literals per round; (c) three clauses over x, y and more than a thousand selector literals, all of them
+// assumed: one conflict whose learned clause holds every selector.
+func genAssumeLarge(r *Rng, tier string) AssumeCase {
+	c := AssumeCase{Large: true}
+	switch r.Intn(3) {
+	case 0:
+		p := r.Range(6, 7)
+		if tier == "thorough" {
+			p = r.Range(7, 8)
+		}
+		cnf := genPigeon(p, p-1)
+		g := maxVarCnf(cnf) + 1
+		for i := range cnf {
+			cnf[i] = append(cnf[i], -g)
+		}
+		c.NbVars, c.Cnf = g, cnf
+		c.Rounds = [][]int{{}, {g}, {-g}, {g}, {}}
+		if r.Bool() {
+			c.Rounds = [][]int{{g}, {}, {g, 1}, {-g}}
+		}
+	case 1:
+		n := r.Range(90, 130)
+		c.NbVars = n
+		c.Cnf = genKSat(r, n, int(float64(n)*4.2), 3)
+		for i := r.Range(3, 5); i > 0; i-- {
+			c.Rounds = append(c.Rounds, randClauseDistinct(r, n, r.Range(0, 2)))
+		}
+	default:
+		k := r.Range(1050, 1300)
+		const z, x, y = 1, 2, 3
+		c1, c2, c3 := []int{x, y}, []int{x, -y}, []int{-x, y}
+		var sel []int
+		for i := 0; i < k; i++ {
+			a := 4 + i
+			sel = append(sel, a)
+			c1, c2, c3 = append(c1, -a), append(c2, -a), append(c3, -a)
+		}
+		c.NbVars, c.Cnf = k+3, [][]int{c1, c2, c3}
+		with := func(extra ...int) []int { return append(append([]int{}, sel...), extra...) }
+		c.Rounds = [][]int{with(), with(-z), with(z), {-z}, {}, with(-z)}
+		if r.Bool() {
+			c.Rounds = [][]int{with(-x), with(), {z}, with(z, y)}
+		}
+	}
+	return c
+}
+
+// runAssumeLarge: every round's answer is validated on its own. Sat: the model is evaluated on the
+// formula and the assumptions. Unsat: a fresh solver is run on formula + assumptions as unit clauses with
+// certificate generation, and its answer is validated in turn (model evaluated, or refutation replayed by
+// the verified RUP checker): only then is the truth known, and the round must agree with it.
+func runAssumeLarge(o *Oracle, c *AssumeCase, oc *Outcome) {
+	n := c.NbVars
+	oc.Tag("large-rounds")
+	oc.Nontrivial = true
+	cp := copyCnf(c.Cnf)
+	s := solver.New(solver.ParseSliceNb(cp, n))
+	entry := "solver.Assume+Solve"
+	for i, a := range c.Rounds {
+		lits := make([]solver.Lit, len(a))
+		withUnits := copyCnf(c.Cnf)
+		for j, l := range a {
+			lits[j] = solver.IntToLit(int32(l))
+			withUnits = append(withUnits, []int{l})
+		}
+		st := s.Assume(lits)
+		if st != solver.Unsat {
+			st = s.Solve()
+		}
+		holds := func(m []bool, l int) bool {
+			if l < 0 {
+				return !m[-l-1]
+			}
+			return m[l-1]
+		}
+		evalOn := func(m []bool) string {
+			if len(m) != n {
+				return fmt.Sprintf("model has %d values for %d variables", len(m), n)
+			}
+			for k, cl := range withUnits {
+				ok := false
+				for _, l := range cl {
+					if holds(m, l) {
+						ok = true
+						break
+					}
+				}
+				if !ok {
+					if k >= len(c.Cnf) {
+						return fmt.Sprintf("assumed literal %v is false", cl)
+					}
+					return fmt.Sprintf("clause %d is false", k)
+				}
+			}
+			return "ok"
+		}
+		switch st {
+		case solver.Sat:
+			if r := evalOn(s.Model()); r != "ok" {
+				oc.Fail("spec", "model-satisfies-formula-and-assumptions", entry, "round %d (%d assumed literals): %s", i, len(a), r)
+			}
+			oc.Tag("large:sat")
+		case solver.Unsat:
+			// truth by a validated fresh run
+			f := solver.New(solver.ParseSliceNb(copyCnf(withUnits), n))
+			f.Certified = true
+			f.CertChan = make(chan string, 1<<16)
+			var lines [][]int
+			done := make(chan struct{})
+			go func() {
+				for line := range f.CertChan {
+					if cl, ok := parseCertLine(line); ok {
+						lines = append(lines, cl)
+					}
+				}
+				close(done)
+			}()
+			fst := f.Solve()
+			close(f.CertChan)
+			<-done
+			if fst == solver.Sat {
+				if r := evalOn(f.Model()); r == "ok" {
+					oc.Fail("spec", "verdict", entry, "round %d (%d assumed literals): Unsat, but formula and assumptions are satisfiable (model of a fresh run, evaluated)", i, len(a))
+				} else {
+					oc.Fail("spec", "verdict", "solver.Solve", "fresh run on formula + assumptions of round %d: Sat with a model that does not hold: %s", i, r)
+				}
+			} else if len(withUnits) <= 400 || len(lines) <= 3000 {
+				oc.Corr++
+				if bad, ref := o.Rup(n, withUnits, lines); bad >= 0 || !ref {
+					oc.Fail("spec", "verdict", "solver.Solve", "fresh run on formula + assumptions of round %d: Unsat, but its certificate is not a refutation (first bad line %d, refutes %v)", i, bad, ref)
+				}
+			}
+			oc.Tag("large:unsat")
+		default:
+			oc.Fail("spec", "never-indet", entry, "round %d: status %v", i, st)
+		}
+	}
+	if s.Stats.NbRestarts > 0 {
+		oc.Tag("restarts-under-assumptions")
+	}
 }
 
 func genAssumeCase(r *Rng, tier string) AssumeCase {
@@ -86,6 +232,7 @@ func init() {
 		ID: "C10",
 		Rule: "base CNF over 2..10 variables (uniform 2/3-SAT, with or without unit clauses - some written several times -, or messy clauses with duplicate literals / tautologies) or threshold 3-SAT over 11..14 variables with 3..7 rounds of 1..2 assumptions and 1..6 rounds of assumption lists: empty, 1..4 distinct literals, a repetition or the negation of the previous round, a list containing a literal and its negation, a list repeating a literal. Every round (Assume, then Solve unless Assume already answered Unsat) is compared with the verified exhaustive verdict on formula AND that round's assumptions, and the model is evaluated on the formula as written and on the assumptions; the rounds are replayed through the abstract machine GS.Cdcl (a learned clause must follow from the formula alone) and sampled conflict analyses (with their assumption flags) are compared with the Lean mirror GS.Analyze. Non-trivial = at least two rounds with different verdicts or a round with a conflict; distinct = distinct (formula, rounds).",
 		Gens:    []Gen{{Name: "rounds", Weight: 1, Make: func(r *Rng, tier string) interface{} { return genAssumeCase(r, tier) }}},
+		Extra:   []ExtraGen{{Gen{Name: "large-rounds", Make: func(r *Rng, tier string) interface{} { return genAssumeLarge(r, tier) }}, 30, 600}},
 		Run:     runAssumeCase,
 		Cases:   defCases(4000, 100000),
 		Timeout: defDur(10*time.Second, 60*time.Second),
@@ -100,6 +247,11 @@ func runAssumeCase(o *Oracle, d json.RawMessage, oc *Outcome) {
 		return
 	}
 	oc.Key = keyOf(c)
+	if c.Large {
+		oc.Sample = fmt.Sprintf("large: %d variables, %d clauses, %d rounds", c.NbVars, len(c.Cnf), len(c.Rounds))
+		runAssumeLarge(o, &c, oc)
+		return
+	}
 	oc.Sample = fmt.Sprintf("cnf %s rounds %v", cnfString(c.Cnf), c.Rounds)
 	cp := make([][]int, len(c.Cnf))
 	for i, cl := range c.Cnf {
